@@ -13,6 +13,7 @@ use radicle_cob::type_name::{TypeName, TypeNameParse};
 use radicle_git_ext::Oid;
 use serde::{de, Deserialize, Serialize};
 use thiserror::Error;
+use unicode_normalization::{is_nfc, UnicodeNormalization as _};
 
 use crate::canonical::formatter::CanonicalFormatter;
 use crate::cob::identity;
@@ -207,6 +208,18 @@ impl FromStr for PayloadId {
 }
 
 impl PayloadId {
+    /// Normalize the identifier to Unicode Normalization Form C (NFC), see
+    /// [`Payload::normalized`].
+    fn normalized(self) -> Self {
+        if is_nfc(self.0.as_str()) {
+            return self;
+        }
+        let name = self.0.as_str().nfc().collect::<String>();
+        // N.b. type names are not validated when they are deserialized as part
+        // of a document, so they are not validated here, either.
+        serde_json::from_value(serde_json::Value::String(name)).unwrap_or(self)
+    }
+
     /// Project payload type.
     pub fn project() -> Self {
         Self(
@@ -235,6 +248,42 @@ pub struct Payload {
 }
 
 impl Payload {
+    /// Normalize all strings of the payload, including object keys, to Unicode
+    /// Normalization Form C (NFC).
+    ///
+    /// This is the form that [`Doc::encode`] writes. A [`Doc`] only holds
+    /// normalized payloads, so that it is equal to the document that is read
+    /// back from its canonical encoding.
+    fn normalized(self) -> Self {
+        fn nfc(value: serde_json::Value) -> serde_json::Value {
+            use serde_json::Value;
+
+            match value {
+                Value::String(s) if !is_nfc(&s) => Value::String(s.nfc().collect()),
+                Value::Array(values) => Value::Array(values.into_iter().map(nfc).collect()),
+                // N.b. if two keys are equal after normalization, the latter
+                // one wins, just like in the canonical encoding.
+                Value::Object(entries) => Value::Object(
+                    entries
+                        .into_iter()
+                        .map(|(key, value)| {
+                            let key = if is_nfc(&key) {
+                                key
+                            } else {
+                                key.nfc().collect()
+                            };
+                            (key, nfc(value))
+                        })
+                        .collect(),
+                ),
+                other => other,
+            }
+        }
+        Self {
+            value: nfc(self.value),
+        }
+    }
+
     /// Get a mutable reference to the JSON map, or `None` if the payload is not a map.
     pub fn as_object_mut(
         &mut self,
@@ -444,6 +493,9 @@ impl RawDoc {
     ///    remaining set ensure that it is non-empty and does not exceed a
     ///    length of [`MAX_DELEGATES`].
     ///  - [`RawDoc::threshold`]: ensure that it is in the range `[1, delegates.len()]`.
+    ///
+    /// The strings of the [`RawDoc::payload`] are normalized the same way as in
+    /// the canonical encoding of the document, see [`Doc::encode`].
     pub fn verified(self) -> Result<Doc, DocError> {
         let RawDoc {
             version,
@@ -454,6 +506,10 @@ impl RawDoc {
         } = self;
         let delegates = Delegates::new(delegates)?;
         let threshold = Threshold::new(threshold, &delegates)?;
+        let payload = payload
+            .into_iter()
+            .map(|(id, payload)| (id.normalized(), payload.normalized()))
+            .collect();
         Ok(Doc {
             version,
             payload,
@@ -646,7 +702,10 @@ impl Doc {
 
         Self {
             version: IDENTITY_VERSION,
-            payload: BTreeMap::from_iter([(PayloadId::project(), Payload::from(project))]),
+            payload: BTreeMap::from_iter([(
+                PayloadId::project(),
+                Payload::from(project).normalized(),
+            )]),
             delegates: Delegates(NonEmpty::new(delegate)),
             threshold: Threshold(NonZeroUsize::MIN),
             visibility,
